@@ -3,7 +3,11 @@
 
 use crate::engine::Suite;
 
+pub mod c01;
+pub mod c06;
 pub mod c08;
+pub mod c18;
+pub mod swapf;
 
 pub struct Property {
     pub id: &'static str,
@@ -14,7 +18,10 @@ pub struct Property {
 
 pub fn all() -> Vec<Property> {
     vec![
+        Property { id: "C01", rule: c01::RULE, assumptions: c01::ASSUMPTIONS, suites: c01::suites() },
+        Property { id: "C06", rule: c06::RULE, assumptions: c06::ASSUMPTIONS, suites: c06::suites() },
         Property { id: "C08", rule: c08::RULE, assumptions: c08::ASSUMPTIONS, suites: c08::suites() },
+        Property { id: "C18", rule: c18::RULE, assumptions: c18::ASSUMPTIONS, suites: c18::suites() },
     ]
 }
 
